@@ -129,14 +129,14 @@ def expected(op):
             if comp[0][3] != "OK":
                 out = [("Exception", None)]
             else:
-                rk = "eresult" if kind == "escan" else "nresult"
-                items = [e for e in op["events"] if e[1] == rk and 0 < e[0] <= t_c]
-                out = [("ok", [(e[2], e[3]) for e in sorted(items, key=lambda e: e[0])])]
+                rk = ("eresult", "nresult")  # a scan returns every result callback it receives, of either kind
+                items = [e for e in op["events"] if e[1] in rk and 0 < e[0] <= t_c]
+                out = [("ok", [(e[1][0], e[2], e[3]) for e in sorted(items, key=lambda e: e[0])])]
                 # the statement excludes results from before the request; it is silent about results that
                 # arrive after the completion callback while the command's own response is still outstanding
-                late = [e for e in op["events"] if e[1] == rk and 0 < e[0] <= end]
+                late = [e for e in op["events"] if e[1] in rk and 0 < e[0] <= end]
                 if len(late) != len(items):
-                    out.append(("ok", [(e[2], e[3]) for e in sorted(late, key=lambda e: e[0])]))
+                    out.append(("ok", [(e[1][0], e[2], e[3]) for e in sorted(late, key=lambda e: e[0])]))
         if cancel is not None and (end is None or cancel < end):
             return [("cancelled", None)]
         return out
@@ -263,11 +263,7 @@ async def scenario(loop, plan, r):
             else:
                 res = task.result()
                 if kind in ("escan", "ascan"):
-                    if kind == "escan":
-                        res = [(int(a), int(b)) for a, b in res]
-                    else:
-                        res = [(int(nw.channel), int(lqi)) for nw, lqi, rssi in res]
-                    res = [(a, b if kind == "escan" else b) for a, b in res]
+                    res = [("e", int(x[0]), int(x[1])) if len(x) == 2 else ("n", int(x[0].channel), int(x[1])) for x in res]
                     got = ("ok", res)
                 elif kind == "ensure":
                     got = ("ok", res)
@@ -280,7 +276,7 @@ async def scenario(loop, plan, r):
                 if k != got[0]:
                     continue
                 if k == "ok" and kind in ("escan", "ascan"):
-                    want = [(a, (b & 0xFF) if kind == "ascan" else b) for a, b in d]
+                    want = [(tg, a, (b & 0xFF) if tg == "n" else b) for tg, a, b in d]
                     ok = ok or want == got[1]
                 elif k == "ok" and kind == "ensure":
                     ok = ok or bool(got[1]) == bool(d)
@@ -319,10 +315,10 @@ async def scenario(loop, plan, r):
                 flags.add("ambiguous-overlap")
             elif sim.second_mode == "accepted":
                 flags.add("second-scan-after-first-completed")
-                want2 = [(26, -1)] if kind == "escan" else [(26, 1)]
+                want2 = [("e", 26, -1)] if kind == "escan" else [("n", 26, 1)]
                 got2 = None
                 if ok2:
-                    got2 = [(int(a), int(b)) for a, b in second.result()] if kind == "escan" else [(int(nw.channel), int(lqi)) for nw, lqi, rssi in second.result()]
+                    got2 = [("e", int(x[0]), int(x[1])) if len(x) == 2 else ("n", int(x[0].channel), int(x[1])) for x in second.result()]
                 if got2 != want2:
                     r.bad("C17:scan-results-differ:second-scan", f"{where}: the second scan was accepted after the first had completed and "
                           f"produced {want2}; it returned {got2 if ok2 else second.exception()!r}; plan {plan}")
@@ -426,7 +422,9 @@ def op_plan(draw):
         for i in range(draw(st.integers(0, 6))):
             tt = t_new()
             if tt is not None:
-                op["events"].append([tt, rk, draw(st.integers(11, 26)), draw(st.integers(-100, 10) if kind == "escan" else st.integers(0, 255))])
+                # now and then a result of the other kind (left over from a scan that was abandoned)
+                k2 = rk if draw(st.integers(0, 5)) else ("nresult" if rk == "eresult" else "eresult")
+                op["events"].append([tt, k2, draw(st.integers(11, 26)), draw(st.integers(-100, 10) if k2 == "eresult" else st.integers(0, 255))])
         for _ in range(draw(st.integers(0, 2))):
             op["pre"].append([0, rk, draw(st.integers(11, 26)), draw(st.integers(-100, 10) if kind == "escan" else st.integers(0, 255))])
         has_cancel = draw(st.integers(0, 5)) == 0
